@@ -275,7 +275,9 @@ FrustumTest<T>::isVisible (const Box<Vec3<T>>& box) const IMATH_NOEXCEPT
 {
     if (box.isEmpty ()) return false;
 
-    Vec3<T> center = (box.min + box.max) / 2;
+    // (min+max)/2 without forming min+max, which overflows for a box
+    // whose bounds are both near the same end of T's range
+    Vec3<T> center = box.min / 2 + box.max / 2;
     Vec3<T> extent = (box.max - center);
 
     // This is a vertical dot-product on three vectors at once.
@@ -303,7 +305,9 @@ FrustumTest<T>::completelyContains (const Box<Vec3<T>>& box) const
 {
     if (box.isEmpty ()) return false;
 
-    Vec3<T> center = (box.min + box.max) / 2;
+    // (min+max)/2 without forming min+max, which overflows for a box
+    // whose bounds are both near the same end of T's range
+    Vec3<T> center = box.min / 2 + box.max / 2;
     Vec3<T> extent = (box.max - center);
 
     // This is a vertical dot-product on three vectors at once.
